@@ -33,6 +33,7 @@ import io
 import os
 import random
 import shutil
+import signal
 import sys
 import tempfile
 import time
@@ -228,6 +229,7 @@ class FsGuard:
 # --------------------------------------------------------------------------
 # the store under test
 
+WATCHDOG_S = 10.0
 USERS = {'user1': 'pass1', 'user2': 'pass2'}
 MSG = {u: (b'From: %s@example.com\r\nSubject: marker of %s\r\n\r\nprivate text of %s\r\n'
            % (u.encode(), u.encode(), u.encode())) for u in USERS}
@@ -457,6 +459,16 @@ def tagged(resp: bytes):
             r.text.decode('latin-1'))
 
 
+class Hang(BaseException):
+    """raised by the wall-clock watchdog inside a spinning pymap loop (a C06
+    matter, e.g. the unterminated '&' loop of modutf7_decode): the name never
+    reaches the store, so it is outside this property's antecedent."""
+
+
+def _on_alarm(signum, frame):
+    raise Hang()
+
+
 class Exec:
     """result of one (layout, variant, slot, concrete name) execution"""
 
@@ -487,6 +499,8 @@ def execute(store: Store, layout: str, variant: str, slot: str, name: bytes) -> 
     g.install()
     g.log, g.refused = [], []
     g.armed = True
+    old_alarm = signal.signal(signal.SIGALRM, _on_alarm)
+    signal.setitimer(signal.ITIMER_REAL, WATCHDOG_S)
     try:
         try:
             w.connect(cname)
@@ -509,10 +523,15 @@ def execute(store: Store, layout: str, variant: str, slot: str, name: bytes) -> 
                     c.eof()
                     w.run(cname)
             phases.append(('end', g.take()))
+        except Hang:
+            ex.exc = 'HANG'
+            phases.append(('crash', g.take()))
         except Exception as exc:       # harness-visible crash of the session
             ex.exc = repr(exc)
             phases.append(('crash', g.take()))
     finally:
+        signal.setitimer(signal.ITIMER_REAL, 0)
+        signal.signal(signal.SIGALRM, old_alarm)
         g.armed = False
         g.uninstall()
         tempfile.tempdir = old_tmp
@@ -537,11 +556,11 @@ def execute(store: Store, layout: str, variant: str, slot: str, name: bytes) -> 
                 ex.root1_gone = True
             rest = k[6:]
             top = rest.split('/')[0]
-            if what != 'added' and (top in ('cur', 'new', 'tmp', 'dovecot-uidlist')
-                                    and slot not in ('MOVE',)):
+            if what != 'added' and top in ('cur', 'new', 'tmp', 'dovecot-uidlist') \
+                    and slot in ('DELETE', 'RENAMEfrom', 'RENAMEto'):
                 ex.inbox_lost.append((k, what))
         else:
             ex.base_diff.append((k, what))
-    if diff:
+    if diff or ex.exc:
         store.discard(layout, variant)
     return ex
